@@ -42,6 +42,34 @@ Definition http_code (guard : bool) (s : shape) : Z :=
   | SPanic | SWritePanic => if guard then 500 else 0
   end.
 
+(* status the HTTP client gets, and whether a panic escapes the chain *)
+Definition http_status (guard : bool) (s : shape) : Z :=
+  match s with
+  | SHeader c | SStream c => c
+  | SWrite | SNothing | SWritePanic => 200
+  | SPanic => if guard then 500 else 200
+  end.
+Definition http_escapes (guard : bool) (s : shape) : Z :=
+  match s with SPanic | SWritePanic => if guard then 0 else 1 | _ => 0 end.
+
+
+Definition panics (s : shape) : bool := match s with SPanic | SWritePanic => true | _ => false end.
+
+(* breakerhandler.go:33-39 (C01): the deferred mark is Accept iff cw.Code < 500 *)
+Definition http_mark (guard : bool) (s : shape) : bool := http_code guard s <? 500.
+
+(* for every way a handler can produce a response without panicking, the mark is a success exactly when
+   the status the client gets is below 500 (an unwritten or implicitly written response is a 200);
+   a panic converted by RecoverHandler is a failure *)
+Lemma http_mark_spec :
+  (forall g s, panics s = false -> 100 <= http_status g s -> http_mark g s = (http_status g s <? 500)) /\
+  (forall s, panics s = true -> http_mark true s = false).
+Proof.
+  split.
+  - intros g s Hp Hs. unfold http_mark. destruct s; simpl in *; try discriminate; reflexivity.
+  - intros s Hp. destruct s; try discriminate; reflexivity.
+Qed.
+
 (* sheddinghandler.go:43-50: Fail iff cw.Code == http.StatusServiceUnavailable *)
 Definition report_http (guard : bool) (s : shape) : rep :=
   if http_code guard s =? 503 then RFail else RPass.
